@@ -62,6 +62,21 @@ def run (op : String) (j : Json) : Except String Json := do
     else
       let eb ← ratOfJson (← field j "eb")
       pure (pairToJson (Gen.C06.z_lower_bound pev obs eb lb ub, Gen.C06.z_upper_bound pev obs eb lb ub))
+  | "boot.clip" =>
+    -- the clip stage of `compute_bootstrap_errors` as regenerated from source: the stored draws of one unit and draw
+    let yBar ← ratOfJson (← field j "yBar")
+    let zBar ← ratOfJson (← field j "zBar")
+    let ry ← ratOfJson (← field j "ry")
+    let rz ← ratOfJson (← field j "rz")
+    let yl ← ratOfJson (← field j "yl")
+    let yu ← ratOfJson (← field j "yu")
+    let zl ← ratOfJson (← field j "zl")
+    let zu ← ratOfJson (← field j "zu")
+    let w ← ratOfJson (← field j "w")
+    pure (Json.arr #[ratToJson (Gen.C06.clip_errors_B_2 yBar zBar ry rz yl yu zl zu w),
+                     ratToJson (Gen.C06.clip_errors_B_4 zBar rz yl yu zl zu w),
+                     ratToJson (Gen.C06.clip_weighted_yz_test_pred yBar zBar yl yu zl zu w),
+                     ratToJson (Gen.C06.clip_weighted_z_test_pred zBar yl yu zl zu w)])
   | "boot.quantile" =>
     let xs ← listOf ratOfJson (← field j "xs")
     let q ← ratOfJson (← field j "q")
